@@ -10,9 +10,16 @@ Conventions (DESIGN.md section 4):
   outcome `Fault.oob` (never a default value);
 * `bucket->num_items = 0` does not erase the item array: stale items stay in memory (and
   `tdma_schedule()` does not write `.flags`, so a new item inherits the flags of the slot);
-* a callback is identified by an id; what it returns is given by the environment `env`;
-  callbacks do not re-enter the scheduler (assumption of the property, see props/C08.py);
-  calling a NULL function pointer is the outcome `Fault.nullCall`.
+* `cur_bucket` is a `uint8_t`: every store to it is followed by the `uint8_t` conversion (`advance`);
+  that it stays below `ARRAY_SIZE(bucket)` is a consequence of the statement
+  `sched->cur_bucket = wrap_bucket(1)` (proved: `advance_spec`), not an assumption of the model;
+* a callback is identified by an id; what it returns is given by the environment (`Env.ret`);
+  a callback may re-enter the scheduler ("on the fly" scheduling): when invoked it performs the
+  *script* the environment gives for its id (`Env.scripts`) — a list of `tdma_schedule()` /
+  `tdma_schedule_set()` calls on the live scheduler, for the current frame (offset 0) or a later one;
+  the items it schedules may be scripted callbacks themselves (nesting by id).  The return values of
+  the scripted calls are recorded (`Out.rets`).  Callbacks do not call execute / advance / reset;
+* calling a NULL function pointer is the outcome `Fault.nullCall`.
 -/
 import OsmoVerif.Gen.TdmaSched
 
@@ -142,8 +149,10 @@ def scheduleSet (s : Sched) (frameOffset : Nat) (itemSet : List Item) (p3 : Nat)
 
 /-- `tdma_sched_advance()` -/
 def advance (s : Sched) : Except Fault Sched := do
+  -- uint8_t next_bucket; next_bucket = wrap_bucket(1);
   let nextBucket ← wrapBucket s 1
-  return { s with cur := nextBucket }
+  -- sched->cur_bucket = next_bucket;     (uint8_t field)
+  return { s with cur := u8 nextBucket }
 
 /-- `tdma_sched_flag_scan()`: OR of the flags of the live items of the current bucket -/
 def flagScanLoop (items : List Item) : (rem : Nat) → (i : Nat) → (flags : Nat) → Except Fault Nat
@@ -191,15 +200,47 @@ the exchange sort over the first `num_items` entries -/
 def bucketSort (b : Bucket) : Except Fault (List Nat) :=
   sortOuter b.item b.numItems b.numItems 0 (List.range Gen.tdmaNumCb)
 
-/-- what a callback returns: `env id p1 p2 p3` -/
-abbrev Env := Nat → Nat → Nat → Nat → Int
+/-- a scheduler call made from inside a callback -/
+inductive Call where
+  | schedule (frameOffset : Nat) (cb : Cb) (p1 p2 p3 : Nat) (prio : Int)
+  | scheduleSet (frameOffset : Nat) (itemSet : List Item) (p3 : Nat)
+  deriving DecidableEq, Repr
 
-/-- `item->cb(item->p1, item->p2, item->p3)` -/
-def callCb (env : Env) (it : Item) : Except Fault Int :=
+/-- the environment of the scheduler: what callback `id` returns (`ret id p1 p2 p3`) and the
+scheduler calls it makes when invoked (`scripts`: association list by id; a callback without entry
+makes no calls) -/
+structure Env where
+  ret : Nat → Nat → Nat → Nat → Int
+  scripts : List (Nat × List Call)
+
+/-- the calls callback `id` makes -/
+def scriptOf (env : Env) (id : Nat) : List Call :=
+  match env.scripts.lookup id with
+  | some calls => calls
+  | none => []
+
+/-- one call from inside a callback, on the live scheduler -/
+def runCall (s : Sched) : Call → Except Fault (Sched × Int)
+  | .schedule off cb p1 p2 p3 prio => schedule s off cb p1 p2 p3 prio
+  | .scheduleSet off set p3 => scheduleSet s off set p3
+
+/-- the body of a scripted callback: its calls in order; the return values are recorded -/
+def runScript : Sched → List Call → Except Fault (Sched × List Int)
+  | s, [] => .ok (s, [])
+  | s, c :: cs => do
+    let (s, rc) ← runCall s c
+    let (s, rcs) ← runScript s cs
+    return (s, rc :: rcs)
+
+/-- `item->cb(item->p1, item->p2, item->p3)`: the scheduler after the call, the callback's return
+value, the return values of the scheduler calls it made -/
+def callCb (env : Env) (s : Sched) (it : Item) : Except Fault (Sched × Int × List Int) :=
   match it.cb with
   | .null => .error .nullCall
-  | .endSet => .ok 0
-  | .fn id => .ok (env id it.p1 it.p2 it.p3)
+  | .endSet => .ok (s, 0, [])
+  | .fn id => do
+    let (s, rets) ← runScript s (scriptOf env id)
+    return (s, env.ret id it.p1 it.p2 it.p3, rets)
 
 /-- result of the execute loop: ran to the end, or left early with `rc < 0` -/
 inductive ExecEnd where
@@ -207,31 +248,50 @@ inductive ExecEnd where
   | err (rc : Int)
   deriving DecidableEq, Repr
 
-/-- the loop of `tdma_sched_execute`: `rem = num_items - i`; `ran` = items whose callback
-was invoked so far, in order -/
-def execLoop (env : Env) (items : List Item) (seq : List Nat) : (rem : Nat) → (i : Nat) →
-    (numEvents : Int) → (ran : List Item) → Except Fault (ExecEnd × List Item)
-  | 0, _, numEvents, ran => .ok (.done numEvents, ran)
-  | rem + 1, i, numEvents, ran => do
-    let si ← idx seq i
-    let item ← idx items si
-    let numEvents := numEvents + 1
-    let rc ← callCb env item
-    if rc < 0 then
-      return (.err rc, ran ++ [item])
-    execLoop env items seq rem (i + 1) numEvents (ran ++ [item])
+/-- the loop of `tdma_sched_execute`:
+`for (i = 0; i < bucket->num_items; i++) { item = &bucket->item[seq[i]]; num_events++; rc = item->cb(..); if (rc < 0) return rc; }`
+* `bucket` is the pointer `&sched->bucket[cur]` taken before the loop; `bucket->num_items` is re-read
+  from the live scheduler `s` on every iteration (a callback may have appended items);
+* `seq[]` is computed once, before the loop; `seqRest` is `seq[i ..]`, so `seq[i]` is its head, and
+  when it is empty `i = TDMASCHED_NUM_CB`: the subscript is outside `int seq[TDMASCHED_NUM_CB]`
+  (`Fault.oob`).  The recursion is on `seqRest`: the loop makes at most `TDMASCHED_NUM_CB` calls;
+* `ran` = items whose callback was invoked so far, `rets` = what their scheduler calls returned. -/
+def execLoop (env : Env) (cur : Nat) : (seqRest : List Nat) → (i : Nat) → (s : Sched) →
+    (numEvents : Int) → (ran : List Item) → (rets : List (List Int)) →
+    Except Fault (Sched × ExecEnd × List Item × List (List Int))
+  | [], i, s, numEvents, ran, rets => do
+    let bucket ← idx s.bucket cur
+    if i < bucket.numItems then
+      .error .oob                               -- seq[TDMASCHED_NUM_CB]
+    else
+      return (s, .done numEvents, ran, rets)
+  | si :: seqRest, i, s, numEvents, ran, rets => do
+    let bucket ← idx s.bucket cur
+    if i < bucket.numItems then
+      let item ← idx bucket.item si
+      let numEvents := numEvents + 1
+      let (s, rc, r) ← callCb env s item
+      if rc < 0 then
+        return (s, .err rc, ran ++ [item], rets ++ [r])
+      execLoop env cur seqRest (i + 1) s numEvents (ran ++ [item]) (rets ++ [r])
+    else
+      return (s, .done numEvents, ran, rets)
 
-/-- `tdma_sched_execute()`: new state, return value, items whose callbacks ran (in order) -/
-def execute (env : Env) (s : Sched) : Except Fault (Sched × Int × List Item) := do
+/-- `tdma_sched_execute()`: new state, return value, items whose callbacks ran (in order), return
+values of the scheduler calls made by each of them -/
+def execute (env : Env) (s : Sched) : Except Fault (Sched × Int × List Item × List (List Int)) := do
+  -- bucket = &sched->bucket[sched->cur_bucket];
   let bucket ← idx s.bucket s.cur
+  -- _tdma_sched_bucket_sort(bucket, seq);
   let seq ← bucketSort bucket
-  let (e, ran) ← execLoop env bucket.item seq bucket.numItems 0 0 []
+  let (s', e, ran, rets) ← execLoop env s.cur seq 0 s 0 [] []
   match e with
-  | .err rc => return (s, rc, ran)          -- bucket left as it is
+  | .err rc => return (s', rc, ran, rets)      -- bucket left as it is
   | .done numEvents =>
-    -- clear/reset the bucket: bucket->num_items = 0;
-    let buckets ← setIdx s.bucket s.cur { bucket with numItems := 0 }
-    return ({ s with bucket := buckets }, numEvents, ran)
+    -- clear/reset the bucket: bucket->num_items = 0;   (same pointer: callbacks do not move cur_bucket)
+    let bucket ← idx s'.bucket s.cur
+    let buckets ← setIdx s'.bucket s.cur { bucket with numItems := 0 }
+    return ({ s' with bucket := buckets }, numEvents, ran, rets)
 
 /-- `tdma_sched_reset()`: every bucket except the current one gets `num_items = 0` -/
 def resetLoop (cur : Nat) : (rem : Nat) → (bucketNr : Nat) → (buckets : List Bucket) →
@@ -269,29 +329,31 @@ inductive Op where
   | reset
   deriving DecidableEq, Repr
 
-/-- observable result of one operation: the return value (`0` for the `void` functions) and the
-items whose callbacks were invoked, in order -/
+/-- observable result of one operation: the return value (`0` for the `void` functions), the
+items whose callbacks were invoked, in order, and for each of them the return values of the scheduler
+calls it made from inside -/
 structure Out where
   rc : Int
   ran : List Item
+  rets : List (List Int)
   deriving DecidableEq, Repr
 
 def step (env : Env) (s : Sched) : Op → Except Fault (Sched × Out)
   | .schedule off cb p1 p2 p3 prio => do
     let (s, rc) ← schedule s off cb p1 p2 p3 prio
-    return (s, ⟨rc, []⟩)
+    return (s, ⟨rc, [], []⟩)
   | .scheduleSet off set p3 => do
     let (s, rc) ← scheduleSet s off set p3
-    return (s, ⟨rc, []⟩)
+    return (s, ⟨rc, [], []⟩)
   | .advance => do
     let s ← advance s
-    return (s, ⟨0, []⟩)
+    return (s, ⟨0, [], []⟩)
   | .execute => do
-    let (s, rc, ran) ← execute env s
-    return (s, ⟨rc, ran⟩)
+    let (s, rc, ran, rets) ← execute env s
+    return (s, ⟨rc, ran, rets⟩)
   | .reset => do
     let s ← reset s
-    return (s, ⟨0, []⟩)
+    return (s, ⟨0, [], []⟩)
 
 /-- a history: the outputs of all operations, in order -/
 def run (env : Env) : Sched → List Op → Except Fault (Sched × List Out)
